@@ -90,6 +90,7 @@ public:
     }
 
     [[nodiscard]] std::uint64_t get_body() const {
+        YAKUSHIMA_VERIF_POINT(ATOMIC, this);
         return body_.load(std::memory_order_acquire);
     }
 
@@ -198,6 +199,7 @@ public:
     }
 
     void set_body(const std::uint64_t nb) {
+        YAKUSHIMA_VERIF_POINT(ATOMIC, this);
         body_.store(nb, std::memory_order_release);
     }
 
